@@ -14,6 +14,7 @@ m=json.load(open('$m/meta.json')); c=m.get('demo_run_cmd','')
 r=re.search(r'-run[ =]+(\\S+)',c)
 print(r.group(1).strip('\\'\"') if r else 'Test.*(Demo|DEMO|demo|C[0-9][0-9])')")
 extra=""; grep -q -- "-race" "$m/meta.json" && extra="-race"
+grep -q "go:build verif" "$m/demo_test.go" && extra="$extra -tags verif"
 work=$(mktemp -d /tmp/confirm-XXXXXX); trap 'rm -rf "$work"' EXIT
 for v in clean patched; do git -C /repo archive HEAD | tar -x -C "$work" --one-top-level=$v; done
 (cd "$work/patched" && patch -p1 -s < "$m/patch.diff") || { echo "CONFIRM patch-failed"; exit 3; }
